@@ -249,6 +249,10 @@ def gen_api_spec(seed, index, nhs, tier):
             # two threads brought to the same phase, then interleaved step by step inside it
             policy = {'name': 'sync', 'k': rs.randrange(1, 22), 'q': rs.choice([1.0, 1.0, 0.5, 0.2]),
                       'burst': rs.choice([300, 2000, 2000, 10000, 40000])}
+            if rs.random() < 0.45:
+                # lockstep by phase over the whole call: every phase is entered together and interleaved finely
+                policy['all'] = True
+                policy['q'] = rs.choice([0.5, 0.3, 0.1, 0.05])
         gran = 'opcode' if rs.random() < (0.06 if tier == 'thorough' else 0.0) else 'line'
         exp = sum(est_steps(sources[c['src']]) for c in calls)
         if gran == 'opcode':
